@@ -101,6 +101,10 @@ pub fn run(out: &mut Out, seed: u64, tier: &str) {
             0 => { for v in m.iter_mut() { if rng.chance(0.3) { *v = ALPHABET[rng.below(6)]; } } }  // asymmetric, diagonal entries too
             1 => { let k = rng.below(n * n); m[k] = *rng.pick(&[0.5, 5.0, -1.0, 2.5, f64::NAN, 1e-3, 1.0001]); }  // unsupported somewhere
             2 => { let k = rng.below(n * n); m[k] = *rng.pick(&[1.0 + 5e-9, 5e-9, -5e-9, 2.0 - 9e-9, 1.5 + 2e-8]); } // on the tolerance edge
+            // exactly on the edge of what the code reads as zero or as an order, and the doubles next to it, in the upper triangle
+            5 => { let (i, j) = { let i = rng.below(n - 1); (i, i + 1 + rng.below(n - 1 - i)) };
+                   let e = 1e-8f64; let up = f64::from_bits(e.to_bits() + 1); let dn = f64::from_bits(e.to_bits() - 1);
+                   m[i * n + j] = *rng.pick(&[e, -e, up, -up, dn, -dn, 1.0 + e, 1.0 - e, 2.0 + e, 3.0 - e, 1.5 - e, 4.0 + e, f64::MIN_POSITIVE, 1e-300, -1e-300, 1e-7, 9.999999e-9]); }
             3 => { if rng.chance(0.5) { m.pop(); } else { m.push(1.0); } }                      // wrong size
             4 => { m.truncate(n); }                                                               // wrong size
             _ => {}
